@@ -72,6 +72,7 @@ AllOff == [ DeferExpiryNotify   |-> FALSE,  \* D1  TimedStore._expired defers it
             FindIgnoresFound    |-> FALSE,  \* spec mutant: find rounds list every watched filter, found or not
             StopSubNotDeferred  |-> FALSE,  \* spec mutant: StopSubscribe sent at once, overtaking a queued Subscribe
             SubStopForgetsList  |-> FALSE,  \* spec mutant: stopping the subscriber drops the requested subscriptions (nothing to send after start)
+            UnsubRemovesAll     |-> FALSE,  \* spec mutant: stop_subscribe_eventgroup drops every request for that eventgroup / server, not one
             QueueLatestWins     |-> FALSE,  \* spec mutant: a queued offer entry replaces a pending one for the same service (StopOffer + Offer -> Offer)
             NotifyOnceConsumesIterator |-> FALSE ] \* D9  notify_once(one-shot iterable): only the first endpoint gets the events
 AsShipped == [AllOff EXCEPT !.DeferExpiryNotify = TRUE, !.DeferStopAllNotify = TRUE, !.DeferRebootFanout = TRUE,
@@ -144,7 +145,8 @@ SubscribeEg(s, g, srv) ==
 UnsubscribeEg(s, g, srv) ==
   IF ~\E n \in DOMAIN s.sub.list : s.sub.list[n] = <<g, srv>> THEN s
   ELSE LET n == CHOOSE n \in DOMAIN s.sub.list : s.sub.list[n] = <<g, srv>> /\ \A m \in 1..(n - 1) : s.sub.list[m] # <<g, srv>>
-           s1 == [s EXCEPT !.sub.list = SubSeq(@, 1, n - 1) \o SubSeq(@, n + 1, Len(@))]
+           s1 == [s EXCEPT !.sub.list = IF Sw.UnsubRemovesAll THEN SelectSeq(@, LAMBDA p : p # <<g, srv>>)
+                                          ELSE SubSeq(@, 1, n - 1) \o SubSeq(@, n + 1, Len(@))]
        IN IF Sw.StopSubNotDeferred THEN SendSubs(s1, 0, srv, <<g>>)
           ELSE CallSoon(s1, [kind |-> "sub_send", ttl |-> 0, srv |-> srv, gs |-> <<g>>])
 
@@ -261,7 +263,10 @@ ReplaySeq(s, q, what, l, defer) ==
   IF q = <<>> THEN s
   ELSE LET k == Head(q)
            e == [k |-> "out", op |-> what, lst |-> l, svc |-> k[2], src |-> k[1]]
-       IN ReplaySeq(IF defer THEN CallSoon(s, [kind |-> "emit", e |-> e]) ELSE Out(s, e),
+       IN ReplaySeq(IF defer THEN CallSoon(s, [kind |-> "emit", e |-> e])
+                    ELSE IF l \in DOMAIN Cfg.autosub     \* an AutoSubscribeServiceListener reacts to the replay like to a notification
+                    THEN (IF what = "offered" THEN SubscribeEg(s, Cfg.autosub[l], k[1]) ELSE UnsubscribeEg(s, Cfg.autosub[l], k[1]))
+                    ELSE Out(s, e),
                     Tail(q), what, l, defer)
 Watch(s, l, f) ==
   LET s1 == [s EXCEPT !.watch[l] = @ \cup {f}, !.wkeys = IF f = "ALL" \/ f \in Range(@) THEN @ ELSE Append(@, f)]   \* dict keys keep insertion order
@@ -297,7 +302,9 @@ Collect(s, dst) ==
   ELSE SendSD([s EXCEPT !.queues = Remove(@, dst)], dst, s.queues[dst])
 
 OfferEntry(i, ttl) == [ty |-> "offer", svc |-> Cfg.inst[i].svc, ttl |-> ttl]
-SendOffer(s, i, dst, stop) == QueueSend(s, dst, OfferEntry(i, IF stop THEN 0 ELSE Cfg.annTTL))
+\* (an instance may have been constructed with a Timings object of its own: Cfg.inst[i].ttl)
+InstTTL(i) == IF "ttl" \in DOMAIN Cfg.inst[i] THEN Cfg.inst[i].ttl ELSE Cfg.annTTL
+SendOffer(s, i, dst, stop) == QueueSend(s, dst, OfferEntry(i, IF stop THEN 0 ELSE InstTTL(i)))
 
 \* ---- task plumbing (DESIGN §3): create_task -> first step next iteration; sleep(d>0) -> timer
 \*      callback "wake" makes the task runnable, its continuation runs one iteration later;
@@ -477,11 +484,16 @@ FindStep(s, tk) ==
 \*        "nall" [evs]  explicit round: snapshot of the endpoints, one nsingle each (asyncio.gather);
 \*        "cyc"  cyclic_notify: wait for clients, sleep the interval, round, again
 NtxEvents(s, ep, evs) ==   \* notifications use the service's own session counters, one per destination
-  LET F[i \in 0..Len(evs)] ==
+  \* (an event that is no longer a key of `values` -- the mapping was replaced while the task was waiting -- raises KeyError: the
+  \*  session ids of the events before it are consumed, the datagram is never sent)
+  LET missing == {i \in DOMAIN evs : evs[i] \notin DOMAIN s.eg.values}
+      n == IF missing = {} THEN Len(evs) ELSE (CHOOSE i \in missing : \A j \in missing : i <= j) - 1
+      F[i \in 0..n] ==
         IF i = 0 THEN s
         ELSE LET r == AssignOut(F[i - 1], <<"svc", ep>>)
-             IN Out(r[1], [k |-> "out", op |-> "ntx", dst |-> ep, sid |-> r[2][2], ev |-> evs[i], val |-> s.eg.values[evs[i]]])
-  IN F[Len(evs)]
+             IN IF missing # {} THEN r[1]
+                ELSE Out(r[1], [k |-> "out", op |-> "ntx", dst |-> ep, sid |-> r[2][2], ev |-> evs[i], val |-> s.eg.values[evs[i]]])
+  IN F[n]
 NewTask(s, rec) == LET tk == NewTaskId(s) IN
   <<CallSoon([s EXCEPT !.tasks = Put(@, tk, [st |-> "created", pc |-> 0, i |-> 0, must |-> FALSE, inst |-> ""] @@ rec)],
              [kind |-> "step", tk |-> tk]), tk>>
@@ -489,14 +501,14 @@ RECURSIVE SpawnSingles(_, _, _, _)
 SpawnSingles(s, eps, evs, round) ==
   IF eps = <<>> THEN s
   ELSE SpawnSingles(NewTask(s, [kind |-> "nsingle", ep |-> Head(eps), evs |-> evs, round |-> round])[1], Tail(eps), evs, round)
-AllEvents == Cfg.events
+AllEvents(s) == s.eg.events      \* list(self.values.keys()): the attribute may be replaced as a whole (eg_replace)
 \* the subscribed endpoints in the iteration order chosen for this step (a Python set: any order)
 EpSeq(s) == IF s.pick = <<>> THEN SetToSeq(s.eg.subs) ELSE SelectSeq(s.pick, LAMBDA ep : ep \in s.eg.subs)
 EgSub(s, ep) ==
   LET s1 == [s EXCEPT !.eg.subs = @ \cup {ep}]
       s2 == IF s.eg.cycWait /\ s.eg.cyc # 0        \* has_clients.set() wakes the blocked cyclic task
             THEN CallSoon([s1 EXCEPT !.eg.cycWait = FALSE, !.tasks[s.eg.cyc].pc = 2], [kind |-> "step", tk |-> s.eg.cyc]) ELSE s1
-  IN NewTask(s2, [kind |-> "ninit", ep |-> ep, evs |-> AllEvents, round |-> 0])[1]
+  IN NewTask(s2, [kind |-> "ninit", ep |-> ep, evs |-> AllEvents(s), round |-> 0])[1]
 EgUnsub(s, ep) == [s EXCEPT !.eg.subs = @ \ {ep}]
 \* oneshot: the events were passed as an iterator / generator (matters only for the as-shipped deviation D9)
 EgNotify(s, evs, oneshot) ==
@@ -521,7 +533,7 @@ EgStep(s, tk) ==
          IF t.pc = 1        \* the interval is over: a round to whoever is subscribed now
          THEN IF s.eg.subs = {} THEN CycContinue(s, tk)
               ELSE SpawnSingles([s EXCEPT !.eg.gather = Put(@, tk, Cardinality(s.eg.subs)), !.tasks[tk].st = "blocked", !.tasks[tk].pc = 3],
-                                EpSeq(s), AllEvents, tk)
+                                EpSeq(s), AllEvents(s), tk)
          ELSE IF t.pc = 2 THEN Sleep(s, tk, Cfg.egInterval, 1, 0)   \* woken by has_clients.set(): wait() returns True even
                                                                   \* if the event was cleared again meanwhile
          ELSE CycContinue(s, tk)      \* pc 0 first step, pc 3 round finished
@@ -599,6 +611,9 @@ Input(s, e) ==      \* an environment input, delivered as an I/O callback
     [] e.op = "eg_sub"    -> EgSub(s0, e.ep)
     [] e.op = "eg_unsub"  -> EgUnsub(s0, e.ep)
     [] e.op = "eg_set"    -> [s0 EXCEPT !.eg.values[e.ev] = e.val]
+    [] e.op = "eg_replace" ->       \* eventgroup.values = {...}: a new mapping (e.vals: <<event, value>> pairs in its order)
+         [s0 EXCEPT !.eg.values = [ev \in {e.vals[i][1] : i \in DOMAIN e.vals} |-> e.vals[CHOOSE i \in DOMAIN e.vals : e.vals[i][1] = ev][2]],
+                    !.eg.events = [i \in DOMAIN e.vals |-> e.vals[i][1]]]
     [] e.op = "eg_notify" -> EgNotify(s0, e.evs, "oneshot" \in DOMAIN e /\ e.oneshot)
     \* a bare TimedStore driven through its public methods (C09)
     [] e.op = "ts_refresh"  -> IF "nak" \in DOMAIN e /\ e.nak /\ ~Has(s0, "ts", e.a, e.key) THEN s0      \* callback_new refuses: no trace
@@ -638,7 +653,7 @@ InitRec ==
         started |-> FALSE, ann |-> Cfg.ann0, inst |-> [i \in DOMAIN Cfg.inst |-> [task |-> 0, can |-> FALSE]],
         tasks |-> <<>>, queues |-> <<>>, ch |-> 0, pick |-> <<>>,
         sub |-> [alive |-> FALSE, task |-> 0, list |-> <<>>], disc |-> [task |-> 0],
-        eg |-> [subs |-> {}, values |-> Cfg.values0, cyc |-> 0, cycWait |-> FALSE, gather |-> <<>>] ]
+        eg |-> [subs |-> {}, values |-> Cfg.values0, events |-> Cfg.events, cyc |-> 0, cycWait |-> FALSE, gather |-> <<>>] ]
 
 \* inputs applicable now (a listener registers under one filter at a time: DESIGN §9)
 Applicable(st, e) ==
